@@ -17,6 +17,7 @@ def run(run, model):
     run.do(msg.hide_placeholders, model)
     run.do(msg.no_nondeterminism, model)
     run.do(effects.no_memo, model, "C20.no-memo")
+    run.do(effects.frozen_after_init, model, "C20.no-history")
     from . import fwd
     run.do(fwd.forwarding, model, "C20.a-repr-forwarded", ("a_repr",))
     from . import rec
